@@ -7,6 +7,7 @@ import (
 	"fmt"
 	"os"
 	"strings"
+	"verif/harness/core"
 )
 
 func jsStillFails(src string, c jsConfig, class string) bool {
@@ -262,5 +263,36 @@ func init() {
 			a, _ := jsAnalyze(cur)
 			fmt.Printf("== %s\n   reduced: %s\n   output : %s\n   verdict: %s\n", f, cur, out, c02Static(a, out, c))
 		}
+	}
+}
+
+func init() {
+	// `vcheck scopegen <seed> <n> <substring>`: print the generated scope programs that contain the substring
+	Children["scopegen"] = func(args []string) {
+		var seed uint64 = 1
+		n := 2500
+		sub := ""
+		if len(args) > 0 {
+			fmt.Sscan(args[0], &seed)
+		}
+		if len(args) > 1 {
+			fmt.Sscan(args[1], &n)
+		}
+		if len(args) > 2 {
+			sub = args[2]
+		}
+		hits := 0
+		for i := 0; i < n; i++ {
+			r := core.Stream(seed, "scope", fmt.Sprint(i))
+			src := genScopeProgram(r, i%5 == 4)
+			if sub == "" || strings.Contains(src, sub) {
+				hits++
+				if hits <= 60 {
+					fmt.Println(src)
+					fmt.Println("----")
+				}
+			}
+		}
+		fmt.Println("hits", hits, "of", n)
 	}
 }
